@@ -84,13 +84,13 @@ import (
 // ---------------------------------------------------------------- case description (replayable)
 
 type c18case struct {
-	Writer  string `json:"writer"`  // fasta fastq json csv chunk
-	Gzip    bool   `json:"gzip"`    // OptionsCompressed
-	Data    string `json:"data"`    // S M L G (see c18dataset)
-	Split   []int  `json:"split"`   // number of records of each batch, in batch order
-	Arrival []int  `json:"arrival"` // arrival order of the batches at the writer
-	Fault   string `json:"fault"`   // none persist oneshot close persist+close fsize
-	K       int    `json:"k"`       // byte offset of the fault in the sink's stream (fsize: RLIMIT_FSIZE)
+	Writer  string `json:"writer"`           // fasta fastq json csv chunk
+	Gzip    bool   `json:"gzip"`             // OptionsCompressed
+	Data    string `json:"data"`             // S M L G (see c18dataset)
+	Split   []int  `json:"split"`            // number of records of each batch, in batch order
+	Arrival []int  `json:"arrival"`          // arrival order of the batches at the writer
+	Fault   string `json:"fault"`            // none persist oneshot close persist+close fsize
+	K       int    `json:"k"`                // byte offset of the fault in the sink's stream (fsize: RLIMIT_FSIZE)
 	Entry   string `json:"entry,omitempty"`  // "" failing sink | file (Write*ToFile) | dispatch (WriterDispatcher)
 	Paired  bool   `json:"paired,omitempty"` // file: WritePairedReadsTo(second file)
 	Append  string `json:"append,omitempty"` // file/dispatch: append mode, this file is pre-filled
@@ -373,21 +373,21 @@ func c18batches(c c18case) []obiiter.BioSequenceBatch {
 // ---------------------------------------------------------------- running one case on the real code
 
 type c18outcome struct {
-	Hung       bool   `json:"hung"`    // deadlocked
-	GaveUp     bool   `json:"gaveup"`  // still running after c18activeCap (no verdict)
-	Exited     bool   `json:"exited"`  // an exit was raised (first one recorded)
-	Code       int    `json:"code"`
-	NExit      int    `json:"nexit"`
-	N          int    `json:"n"`       // bytes that reached the sink
-	H          uint64 `json:"h"`       // FNV-1a of these bytes
-	Ends       []int  `json:"ends,omitempty"`
-	Ops        int    `json:"ops"`
-	Fired      bool   `json:"fired"`
-	FiredWrite int    `json:"fw"`
-	Phase      string `json:"phase"`
-	CloseCalls int    `json:"cc"`
-	CloseFail  bool   `json:"cf"`
-	RSS        int64  `json:"rss,omitempty"` // child mode: resident set of the child
+	Hung       bool               `json:"hung"`   // deadlocked
+	GaveUp     bool               `json:"gaveup"` // still running after c18activeCap (no verdict)
+	Exited     bool               `json:"exited"` // an exit was raised (first one recorded)
+	Code       int                `json:"code"`
+	NExit      int                `json:"nexit"`
+	N          int                `json:"n"` // bytes that reached the sink
+	H          uint64             `json:"h"` // FNV-1a of these bytes
+	Ends       []int              `json:"ends,omitempty"`
+	Ops        int                `json:"ops"`
+	Fired      bool               `json:"fired"`
+	FiredWrite int                `json:"fw"`
+	Phase      string             `json:"phase"`
+	CloseCalls int                `json:"cc"`
+	CloseFail  bool               `json:"cf"`
+	RSS        int64              `json:"rss,omitempty"`   // child mode: resident set of the child
 	Files      map[string]c18fdig `json:"files,omitempty"` // real-file entries: content of every file
 }
 
@@ -403,7 +403,6 @@ func c18hash(b []byte) uint64 {
 	h.Write(b)
 	return h.Sum64()
 }
-
 
 // c18wait waits for the end of a case. A case is declared hung only when it is DEADLOCKED: two
 // goroutine dumps taken 3 s apart in which no goroutine (other than the watchdog and the runtime's
@@ -1113,9 +1112,13 @@ func TestVerifC18(t *testing.T) {
 		c.Fault, c.K = "none", 0
 		o := c18run(c, true)
 		o2 := c18run(c, true)
+		badFS := func(what string) c18ref {
+			// a control run that misbehaves is a verdict on the tree under test, not a harness failure
+			r.Violate("control-run/"+c.Entry+":"+c.Writer+"/fault-free-run-misbehaves", fmt.Sprintf("fault-free run of %s %s", c.hist(), what), c)
+			return c18ref{n: -1}
+		}
 		if o.Hung || o.GaveUp || o.Exited || len(o.Files) == 0 || fmt.Sprint(o.Files) != fmt.Sprint(o2.Files) {
-			t.Fatalf("c18: fault-free run of %s is not usable as reference (hung=%v exit=%v/%d files=%v / %v)",
-				c.hist(), o.Hung, o.Exited, o.Code, o.Files, o2.Files)
+			return badFS(fmt.Sprintf("is not usable as reference (hung=%v exit=%v/%d files=%v / %v)", o.Hung, o.Exited, o.Code, o.Files, o2.Files))
 		}
 		want := 1
 		if c.Paired {
@@ -1127,14 +1130,14 @@ func TestVerifC18(t *testing.T) {
 		top := 0
 		for n, d := range o.Files {
 			if d.N == 0 || (c.Append != "" && n == c18appendName(c, c18ext[c.Writer]) && d.N <= c18prefill) {
-				t.Fatalf("c18: fault-free run of %s left %s with %d bytes", c.hist(), n, d.N)
+				return badFS(fmt.Sprintf("left %s with %d bytes", n, d.N))
 			}
 			if d.N > top {
 				top = d.N
 			}
 		}
 		if len(o.Files) != want {
-			t.Fatalf("c18: fault-free run of %s wrote %d files, %d expected: %v", c.hist(), len(o.Files), want, o.Files)
+			return badFS(fmt.Sprintf("wrote %d files, %d expected: %v", len(o.Files), want, o.Files))
 		}
 		return c18ref{n: top, files: o.Files}
 	}
@@ -1143,16 +1146,28 @@ func TestVerifC18(t *testing.T) {
 		c := c18case{Writer: h.writer, Gzip: h.gz, Data: h.data, Split: h.split, Arrival: h.arrival, Fault: "none"}
 		o := c18run(c, true)
 		noClose := h.writer != "chunk" && c18variantOf(h.writer).noClose
-		if noClose && o.CloseCalls != 0 {
-			t.Fatalf("c18: %s closed a sink it was told to leave open", c.hist())
+		// A control run that misbehaves is a verdict on the tree under test (on the pinned tree it never does): the
+		// history is reported once and skipped (n = -1), it must not end the shard as a harness failure.
+		bad := ""
+		switch {
+		case noClose && o.CloseCalls != 0:
+			bad = "closed a sink it was told to leave open"
+		case o.Hung || o.GaveUp:
+			bad = "does not terminate"
+		case o.Exited:
+			bad = fmt.Sprintf("ends in log.Fatal (exit status %d) although nothing failed", o.Code)
+		case (o.CloseCalls == 0 && !noClose) || o.N == 0:
+			bad = fmt.Sprintf("writes %d bytes and calls Close %d times", o.N, o.CloseCalls)
 		}
-		if o.Hung || o.GaveUp || o.Exited || (o.CloseCalls == 0 && !noClose) || o.N == 0 {
-			t.Fatalf("c18: fault-free run of %s is not usable as reference (hung=%v exit=%v/%d close calls=%d bytes=%d)",
-				c.hist(), o.Hung, o.Exited, o.Code, o.CloseCalls, o.N)
+		if bad == "" {
+			o2 := c18run(c, true)
+			if o.N != o2.N || o.H != o2.H {
+				bad = "gives two different outputs in two runs"
+			}
 		}
-		o2 := c18run(c, true)
-		if o.N != o2.N || o.H != o2.H {
-			t.Fatalf("c18: fault-free output of %s is not deterministic", c.hist())
+		if bad != "" {
+			r.Violate("control-run/"+h.writer+"/fault-free-run-misbehaves", fmt.Sprintf("fault-free run of %s %s", c.hist(), bad), c)
+			return c18ref{n: -1}
 		}
 		return c18ref{n: o.N, h: o.H, ends: o.Ends}
 	}
@@ -1163,10 +1178,14 @@ func TestVerifC18(t *testing.T) {
 			t.Fatal(err)
 		}
 		if c.Entry != "" {
-			eval(c, referenceFS(c))
+			if ref := referenceFS(c); ref.n >= 0 {
+				eval(c, ref)
+			}
 			return
 		}
-		eval(c, reference(c18hist{c.Writer, c.Gzip, c.Data, c.Split, c.Arrival}))
+		if ref := reference(c18hist{c.Writer, c.Gzip, c.Data, c.Split, c.Arrival}); ref.n >= 0 {
+			eval(c, ref)
+		}
 		return
 	}
 
@@ -1277,6 +1296,9 @@ func TestVerifC18(t *testing.T) {
 					}
 					// every shard needs the reference: the work item numbering depends on its length
 					ref := reference(hh)
+					if ref.n < 0 {
+						continue
+					}
 					r.Count("reference_runs", 1)
 					offs := c18offsets(ref.n, ref.ends, pl.all, pl.stride)
 					mk := func(f string, kk int) c18case {
@@ -1416,6 +1438,9 @@ func TestVerifC18(t *testing.T) {
 						continue
 					}
 					ref := referenceFS(c) // every shard: the work item numbering depends on it
+					if ref.n < 0 {
+						continue
+					}
 					r.Count("reference_runs", 1)
 					for _, off := range fsOffsets(c, ref, pl.all, pl.stride) {
 						if r.Mine(k) {
